@@ -170,7 +170,8 @@ func (p *Prog) InLibrary(fn *ssa.Function) bool {
 			return true
 		}
 	}
-	return false
+	// helpers moved into an internal package of the module are library code (only the library can import them)
+	return strings.HasPrefix(pp, modPath+"/internal/")
 }
 
 // FnName is a stable printable name: pkgshort.(Recv).Name or pkgshort.Name, with $n for closures.
